@@ -16,7 +16,7 @@ claimed = {
    ref="DESIGN.md section 6 C02"),
  "C03": dict(
    text="the library's real receive filter and sendto checks are run on k datagrams of symbolic length 0..2048 and content (broadcast route) or one such datagram (udp/tcp routes): a result implies a 64-byte datagram with the right protocol id, function code and serial number, it is the first such datagram, its content is what is decoded, anything else fails the call; SetAddress consumes nothing",
-   note="bounds: k <= 2 datagrams quick, <= 4 thorough (longer sequences argued from the loop being memoryless); representative operations GetCards, OpenDoor, GetStatus; the ut0311 socket loop itself is not encoded (seam level). " + TRUST,
+   note="bounds: k <= 2 datagrams quick, <= 4 thorough (longer sequences argued from the loop being memoryless); representative operations GetCards, OpenDoor, GetStatus at the seam; socket level: GetCards through the real ut0311.SendUDP / SendTCP / BroadcastTo over the socket script (datagrams / TCP chunks of length 0..96, k <= 2, 3 thorough), replayed natively against a loopback peer. " + TRUST,
    ref="DESIGN.md section 6 C03"),
  "C04": dict(
    text="every runtime panic of the interpreted code (index and slice bounds, nil dereference, nil-map write, failed type assertion, division by zero, explicit panic, reflect misuse) is a solver obligation in the engine; the harnesses drive the 30 reply-bearing operations with an arbitrary reply of symbolic length 0..2048 on four routes (broadcast filter, UDP, TCP nil reply, transport error), then render the result with String() and JSON; plus the codec and dispatcher entry points, discovery and the listener's datagram handler on arbitrary byte strings, and arbitrary argument values",
@@ -64,7 +64,7 @@ claimed = {
    ref="DESIGN.md section 6 C15"),
  "C16": dict(
    text="Date and HHmm Before/After/Equals executed symbolically on pairs and triples: trichotomy, mirror image, transitivity, irreflexivity and agreement with lexicographic (y,m,d)/(h,m) order are assertions decided by the solver over all valid dates 0001..9999 (any fixed zone offset) and all int-valued HH:mm fields",
-   note="DateTime.Before and the SetTimeProfile segment check are covered by C07's SetTimeProfile harness (segment rule) and not yet for DateTime.Before (UnixMilli not modelled). " + TRUST,
+   note="DateTime.Before is covered under a symbolic fixed-offset zone (civil seconds, sub-second parts ignored) and across a zone transition (two instants on the transition day under zone view Z2, real-zone twin), with Time.UnixMilli modelled as order-constrained epoch seconds (years from 1970); the SetTimeProfile segment check is covered by C07's SetTimeProfile harness. " + TRUST,
    ref="DESIGN.md section 6 C16"),
  "C17": dict(
    text="havoc-after: after construction / the call / the clone, every settable cell reachable from the caller's data or from the transport buffer is overwritten with fresh solver variables and the routing decision, arguments or results are asserted unchanged; a shared cell shows up as a satisfiable difference",
